@@ -300,6 +300,12 @@ def run(world, rep, tier, only=None):
     from rules import C09
     C09.expand_keeps_size(prog, rep, "C18.g")
 
+    # ------------------------------------------------------------------ C18.i bytes behind the end of a populated file are zero on disk (shared with C09.d)
+    # do_write_internal() sets i_size to the full length before the data is copied, so the last, partial block of a
+    # file never goes through the size-extension path that zeroes a tail: what keeps stale heap or buffer bytes out of
+    # the image - and the image reproducible - is that a partial write fills the block buffer first.
+    C09.copy_in_rules(prog, rep, "C18.i")
+
     # ------------------------------------------------------------------ C18.h an inline file is never left longer than its inline area
     # do_write_internal() gives the new inode its full length and the inline flag before any data is copied, and the
     # copy skips holes and blocks of zeroes: a source without any data to copy writes nothing, so nothing expands the
